@@ -27,7 +27,7 @@ def tlv_types(u, t):
 
 def messages_mod(u, m, requests=False, t=None, fee="none"):
     """Real declarations of src/messages.rs.  fee: none | stub | real"""
-    if requests:
+    if requests and t is not None:
         tlv_types(u, t)
     u.raw("pub mod messages {\nuse super::*;\n")
     if requests:
@@ -69,6 +69,7 @@ def build(u):
         u.ghost_callees[g] = "Tracked(w)"
     common_head(u)
     u.spec("failmsg_spec.rs", shared=True)
+    u.spec("messages_ctor.rs", shared=True)
     u.spec("fee_spec.rs", shared=True)
     u.spec("iface.rs", shared=True)
     u.spec("paystate_shared.rs", shared=True)
